@@ -35,16 +35,18 @@ func main() {
 		runGen(*out, *repo)
 	case "aol":
 		runChainProfile(profileSpec{"aol", genAolHistory, func() []Monitor {
-			return []Monitor{&aolRecordMonitor{}, &aolAuthMonitor{}, &aolCounterMonitor{}}
+			return []Monitor{&aolRecordMonitor{}, &aolAuthMonitor{}, &aolCounterMonitor{}, &feeMonitor{}, &burnMonitor{}}
 		}}, *seed, *n, *out, *replay, *blocks)
 	case "aollist":
 		runChainProfile(profileSpec{"aollist", genAolListHistory, func() []Monitor { return []Monitor{&aolCounterMonitor{}} }}, *seed, *n, *out, *replay, *blocks)
+	case "burn":
+		runChainProfile(profileSpec{"burn", genBurnHistory, func() []Monitor { return []Monitor{&burnMonitor{}, &feeMonitor{}} }}, *seed, *n, *out, *replay, *blocks)
 	case "pnft":
-		runChainProfile(profileSpec{"pnft", genPnftHistory, func() []Monitor { return []Monitor{newPnftMonitor()} }}, *seed, *n, *out, *replay, *blocks)
+		runChainProfile(profileSpec{"pnft", genPnftHistory, func() []Monitor { return []Monitor{newPnftMonitor(), &feeMonitor{}} }}, *seed, *n, *out, *replay, *blocks)
 	case "valid":
 		runValid(*seed, *n, *out, *replay)
 	case "did":
-		runChainProfile(profileSpec{"did", genDidHistory, func() []Monitor { return []Monitor{newDidMonitor()} }}, *seed, *n, *out, *replay, *blocks)
+		runChainProfile(profileSpec{"did", genDidHistory, func() []Monitor { return []Monitor{newDidMonitor(), &feeMonitor{}} }}, *seed, *n, *out, *replay, *blocks)
 	case "compkey":
 		runCompkey(*seed, *n, *out, *replay)
 	default:
